@@ -117,9 +117,9 @@ def canonical_fields(program, ctx, rid):
     return proven
 
 
-def rule_canonical(program, ctx):
-    rid = ctx.rule(
-        "C04.canonical",
+def rule_canonical(program, ctx, prop=P, rid="C04.canonical"):
+    ctx.rule(
+        rid,
         "lossy-codec guard: id, pubkey and sig pass through bytes.fromhex (accepts upper case and whitespace) on write and .hex() on read, "
         "and are pasted between JSON quotes by the hand serializer; created_at is pasted in value position. 'verbatim' therefore needs an "
         "admission check (is_signed, in every default chain) proving canonical lower-case hex / int on every accepting path",
@@ -132,7 +132,7 @@ def rule_canonical(program, ctx):
             what = ("accepts upper-case digits and ASCII whitespace in it: the event is stored/served lower-cased (no longer verbatim, id no longer "
                     "matches) and a value with an embedded tab is pasted between JSON quotes in the live EVENT frame") if kind == "HEX" else \
                    ("accepts a non-int value: it is pasted unencoded into the EVENT frame (invalid JSON / injected members)")
-            ctx.bad(finding_func(P, rid, fn, f"no canonical-form check for `{field}` on the admission path; {what}", text=f"def is_signed(...) :: {field}"))
+            ctx.bad(finding_func(prop, rid, fn, f"no canonical-form check for `{field}` on the admission path; {what}", text=f"def is_signed(...) :: {field}"))
     return proven
 
 
